@@ -140,6 +140,35 @@ def check_orders(ctx, fparams, steps):
             V(ctx, 'order-changes-behaviour', 'two admissible application orders give different call behaviour',
               dict(w, order_a=[steps[k][0] for k in p0], order_b=[steps[k][0] for k in perm]), rp)
             break
+    # the same steps on a METHOD, looked up through an instance (twice): every order that is admissible for the
+    # function is admissible there, and the bound method advertises and accepts what the function does
+    # (posoargs with explicit names cannot be applied to a method without naming its instance parameter too)
+    if (len(fparams) + len(steps)) % 2 == 0 and not any(q[0] == 'self' for q in fparams) \
+            and not any(st[0].startswith("posoargs('") for st in steps):
+        mparams = (('self', PO if sigs.has_kind(fparams, PO) else PK, None, None),) + tuple(fparams)
+        mexp = (('self', PO if sigs.has_kind(exp, PO) else PK, None, None),) + tuple(exp)
+        for perm, m, i, r, b, t in results:
+            deco = ['@modifiers.%s' % steps[k][0] for k in reversed(perm)]
+            ctx.count('C18.orders_on_methods')
+            try:
+                g, ref, ns = w_mod.build_pair(mparams, deco, mexp, method=True)
+                g2 = getattr(type(g.__self__)(), g.__func__.__name__) if hasattr(g, '__func__') else g
+                ms = w_mod.sig_meta(sigtools.signature(g))
+                mi = w_mod.sig_meta(inspect.signature(g))
+                mb = w_mod.behaviour(g, sp, skip)
+            except Exception as e:
+                V(ctx, 'order-on-method-raises-%s' % type(e).__name__,
+                  'an order of steps that is admissible on the function raises %s when the function is a method looked up through an instance: %s' % (type(e).__name__, e),
+                  dict(w, order=[steps[k][0] for k in perm]), rp)
+                break
+            if not w_mod.same_meta(ms, m) or not w_mod.same_meta(mi, i):
+                V(ctx, 'order-on-method-changes-signature', 'the bound method advertises another signature than the function after the same steps',
+                  dict(w, order=[steps[k][0] for k in perm], function=t, method=str(sigtools.signature(g))), rp)
+                break
+            if [x == 'T' for x in mb if x is not None] != [x == 'T' for x in b if x is not None]:
+                V(ctx, 'order-on-method-changes-acceptance', 'the bound method accepts other calls than the function after the same steps',
+                  dict(w, order=[steps[k][0] for k in perm]), rp)
+                break
     # annotate is reflected in what the modifier advertises (compare with the reference)
     want = [(n, k, (inspect.Parameter.empty if d is None else eval(d)), (inspect.Parameter.empty if a is None else eval(a)))
             for n, k, d, a in exp]
